@@ -162,7 +162,7 @@ func checkC13Reconn(ix *index, add addFn) {
 		}
 		return ps[k]
 	}
-	pendingPing := map[int]int64{}
+	pendingPing := map[int][]int64{} // per connection, oldest first: PINGRESPs answer PINGREQs in order
 	for i := range ix.tr {
 		if i >= ix.end() {
 			break
@@ -171,15 +171,15 @@ func checkC13Reconn(ix *index, add addFn) {
 		switch r.Kind {
 		case "tx":
 			if r.P.Type == TPingReq {
-				pendingPing[r.Conn] = r.T
+				pendingPing[r.Conn] = append(pendingPing[r.Conn], r.T)
 			}
 		case "rx":
 			if r.P != nil && r.P.Type == TPingResp {
-				if t0, ok := pendingPing[r.Conn]; ok {
-					if r.T-t0 >= timeout*1000 {
+				if q := pendingPing[r.Conn]; len(q) > 0 {
+					if r.T-q[0] >= timeout*1000 {
 						get(r.Conn).late = true
 					}
-					delete(pendingPing, r.Conn)
+					pendingPing[r.Conn] = q[1:]
 				}
 			}
 		case "dropc2b", "dropb2c", "lostc2b", "lostb2c":
@@ -208,6 +208,34 @@ func checkC13Reconn(ix *index, add addFn) {
 			if c.endAt < 0 {
 				add("closes-silent", fmt.Sprintf("conn %d: a PINGREQ went unanswered but the client never closed the connection", k), nil)
 				continue
+			}
+			// ... no later than the timeout of the first keep-alive ping that went
+			// unanswered (exact on the fake clock; not with parked sites)
+			if len(cfg.Yields) == 0 && !otherEnding(ix, k) {
+				// PINGRESPs answer PINGREQs in order: with m responses received
+				// the first m requests were answered; the first keep-alive
+				// request after those is the one whose timeout must close.
+				firstLost := int64(-1)
+				m := 0
+				for i := range ix.tr {
+					if r := &ix.tr[i]; r.Kind == "rx" && r.Conn == k && r.P != nil && r.P.Type == TPingResp {
+						m++
+					}
+				}
+				n := 0
+				for _, j := range ix.tx {
+					if ix.tr[j].Conn != k || ix.tr[j].P.Type != TPingReq {
+						continue
+					}
+					n++
+					if n > m && isKeepAlivePing(ix, j) {
+						firstLost = ix.tr[j].T
+						break
+					}
+				}
+				if firstLost >= 0 && ix.tr[c.endAt].T > firstLost+timeout*1000 {
+					add("closes-silent", fmt.Sprintf("conn %d: the keep-alive ping sent at t=%dns was never answered, the connection was closed %dns after its timeout", k, firstLost, ix.tr[c.endAt].T-firstLost-timeout*1000), map[string]string{"kind": "late"})
+				}
 			}
 			// closed by the keep-alive: the error reported with Closed is ErrPingTimeout
 			if ix.tr[c.endAt].Kind == "close" && ix.tr[c.endAt].V == 0 {
@@ -265,4 +293,19 @@ func otherEnding(ix *index, k int) bool {
 		}
 	}
 	return false
+}
+
+// isKeepAlivePing: a PINGREQ that was not written by an application ping op
+// (those are logged between the op's inv and ret in the same step).
+func isKeepAlivePing(ix *index, txIdx int) bool {
+	for k, op := range ix.sc.Ops {
+		if op.Kind != "ping" {
+			continue
+		}
+		o := ix.ops[k]
+		if o.inv >= 0 && o.inv < txIdx && (o.ret < 0 || o.ret > txIdx) && ix.tr[o.inv].T == ix.tr[txIdx].T {
+			return false
+		}
+	}
+	return true
 }
